@@ -159,7 +159,7 @@ func (w *World) CG() *CallGraph {
 		if _, ok := cg.Out[f]; !ok {
 			cg.Out[f] = nil
 		}
-		for _, c := range Calls(f) {
+		for _, c := range OwnCalls(f) {
 			cc := c.Common()
 			if cc.IsInvoke() {
 				for _, t := range impls(cc.Value.Type(), cc.Method) {
